@@ -69,10 +69,15 @@ package lfshttp
 //@   assumed
 //@   props C10
 //@   modifies fresh
+// C15: a 429 answer that names a time (a usable Retry-After) is handed on as
+// the retry-later error itself; the plain "retriable" wrapper is only used when
+// no such time could be taken from the answer (a wrapped retry-later error is
+// classified as plainly retriable first and retried without waiting).
 //@ func (*Client).handleResponse
 //@   assumed
-//@   props C10
+//@   props C10 C15
 //@   modifies fresh
+//@   at call errors.NewRetriableError:1 assert retLaterErr == nil && arg0__ == err
 //@ func Retries
 //@   assumed
 //@   props C10 C15
